@@ -13,6 +13,7 @@ import (
 func init() { Registry["C14"] = c14 }
 
 func c14(r *Report) {
+	defer c14Seed7(r)
 	defer c14Seed5(r)
 	p := r.P
 	defer c14Audit4(r)
